@@ -2,6 +2,7 @@
    A tree is abstracted to the list of its generator-owned fields; the log is the monotone history of what the
    generator expressions actually returned.  Anchors: NonTerminalNode.fuzz, Grammar.generate, DerivationTree.replace_multiple. *)
 From Coq Require Import List String NArith Bool Arith.
+From FV Require Import Base.Grammar.
 Import ListNotations.
 Open Scope list_scope.
 
@@ -24,6 +25,8 @@ Inductive op :=
 | OReplaceOutside (i : nat)                            (* a replacement that touches no generator-owned field *)
 | OEditInside (i k : nat) (v : text)                   (* attempt to overwrite (part of) the generated text: refused *)
 | OAdopt (i k : nat) (v : text)                        (* attempt to put a text no generator returned in place of the field: refused *)
+| OAdoptDerived (i k : nat) (a : args) (v : text)      (* a same-symbol subtree with text v is put in place of the field and arguments a are derived
+                                                          from it (converter generators): accepted only if the generator yields v for a *)
 | OCopyField (i k i' k' : nat)                         (* crossover: the field is replaced by the same-symbol field k' of individual i' *)
 | ODrop (i : nat).                                     (* an individual leaves the population *)
 
@@ -83,6 +86,17 @@ Definition step (g : gen) (s : st) (o : op) : st * out :=
   | OReplaceOutside _ => (s, Done)
   | OEditInside _ _ _ => (s, Refused)
   | OAdopt _ _ _ => (s, Refused)
+  | OAdoptDerived i k a v =>
+      match get_field s i k with
+      | Some f =>
+          match g (f_nt f) a with
+          | Some v' => if list_eqb N.eqb v' v
+                       then (set_field s i k {| f_nt := f_nt f; f_args := a; f_val := v' |} [(f_nt f, a, v')], Done)
+                       else (s, Refused)
+          | None => (s, Refused)
+          end
+      | None => (s, Refused)
+      end
   | OCopyField i k i' k' =>
       match get_field s i k, get_field s i' k' with
       | Some f, Some f' =>
